@@ -97,7 +97,7 @@ PROPS["C06"] = Prop(
     "(no bound, loop-free): + - * against i128 arithmetic by SAT; / % by contract chaining "
     "(std primitive stubbed by its contract in Kani, meaning of the primitive proved in Verus lemma L-div).",
     kunits=C06_UNITS,
-    vunits=[V_LDIV, VUnit("name_bind", "name_bind", ["bind::bind_next_name", "bind::bind_name"])],
+    vunits=[V_LDIV, VUnit("name_bind", "name_bind", ["bind::bind_next_name", "bind::bind_name"]), VUnit("bind_next", "bind_next", ["bind::binary_operation_assign", "bind::bind_next"])],
     assumptions=[
         "integer literal decoding (lexer next_int, unary minus in the grammar) is not under contract",
         "range materialisation `a .. b` ((start..end).map(new_int).collect() inside eval_expr) is not under contract",
@@ -160,17 +160,19 @@ PROPS["C17"] = Prop(
     "EvalBuiltinFuncCallFailed is invisible to the renderer, each user-call wrapper yields exactly one stack-trace line. "
     "(2) Located-ness as an inductive postcondition `located(e)` (AtLoc, or a context wrapper of a located error) on every function "
     "of the V units: assuming callees return located errors, the function returns located errors.",
-    vunits=[V_RENDER, V_CTL, V_RANGE, VUnit('name_bind', 'name_bind', ['bind::bind_next_name', 'bind::bind_name']), VUnit('list_bind', 'list_bind', ['bind::bind_list']), VUnit('call', 'call', ['eval::eval_call']), VUnit('scoped', 'scoped', ['eval::eval_stmts', 'eval::eval_stmts_in_new_scope']), VUnit('items', 'items', ['eval::eval_list_items'])],
+    vunits=[V_RENDER, V_CTL, V_RANGE, VUnit('name_bind', 'name_bind', ['bind::bind_next_name', 'bind::bind_name']), VUnit('list_bind', 'list_bind', ['bind::bind_list']), VUnit('call', 'call', ['eval::eval_call']), VUnit('scoped', 'scoped', ['eval::eval_stmts', 'eval::eval_stmts_in_new_scope']), VUnit('items', 'items', ['eval::eval_list_items']), VUnit('object_bind', 'object_bind', ['bind::bind_object', 'bind::bind_object_prop']), VUnit('bind_next', 'bind_next', ['bind::bind_next', 'bind::bind', 'bind::binary_operation_assign'])],
     assumptions=[
         "message TEXT is not under contract (format! is opaque): 'human-readable, no internal identifier' follows from transparency + located-ness only for errors whose Display text is human-readable",
         "stdout/stderr ordering and exit status 103 (process-level, main is I/O) are not under contract",
-        "raise sites inside eval_expr / bind_next / bind_object arms are not in a V unit: their located-ness is an assumed callee contract",
+        "raise sites inside eval_expr, validate_args, value_to_pairs and the builtins are not in a V unit: their located-ness is an assumed callee contract",
     ],
     trusted_base=VERUS_TRUST,
-    not_covered=["message wording", "process exit status / stream ordering", "raise sites in eval_expr, bind_next, bind_object, builtins"],
+    not_covered=["message wording", "process exit status / stream ordering", "raise sites in eval_expr, validate_args, builtins"],
 )
 
 
+V_BINDNEXT = VUnit("bind_next", "bind_next", ["bind::bind_next", "bind::bind", "bind::binary_operation_assign", "scope::set"])
+V_OBJECT = VUnit("object_bind", "object_bind", ["bind::bind_object", "bind::bind_object_prop"])
 V_NAME = VUnit("name_bind", "name_bind", ["bind::bind_next_name", "bind::bind_name", "value::new_val_ref_with_no_source"])
 
 PROPS["C20"] = Prop(
@@ -179,14 +181,14 @@ PROPS["C20"] = Prop(
     "(`_` never binds; once per pattern; := declares in the innermost scope only and cites the earlier position on conflict; "
     "= / op= update the nearest enclosing declaration or report Undefined at the name) over an abstract scope-chain view, for all names, "
     "all chains and all values.",
-    vunits=[V_NAME],
+    vunits=[V_NAME, V_BINDNEXT],
     assumptions=[
         "ScopeStack::{declare,get,assign} are under ASSUMED contracts read off src/eval/scope.rs (HashMap + Arc<Mutex> are outside both engines)",
         "std HashSet<String> is replaced by an assumed mathematical-set contract",
         "when a scope is pushed or popped (blocks, calls, loop iterations) is not under contract here (C04 territory)",
     ],
     trusted_base=VERUS_TRUST,
-    not_covered=["non-bindable target rejection in bind_next / validate_args (literal arms)", "reads of undefined names (eval_expr Var arm)",
+    not_covered=["non-bindable parameter rejection in validate_args", "reads of undefined names (eval_expr Var arm)",
                  "scope push/pop discipline", "bind_object_prop's `_` short-circuit"],
 )
 
@@ -200,12 +202,12 @@ PROPS["C13"] = Prop(
     "(or at least n-1 with a final ..rest), pattern i bound to element i left to right, rest = a fresh list of exactly xs[n-1..] "
     "(so prefix + rest == xs, lemma), spread item rejected, no index underflow/OOB; bind_next external (any behaviour). "
     "Unit V-name contributes the once-per-pattern name set clause.",
-    vunits=[V_LIST, V_NAME, V_CALL, VUnit('items', 'items', ['eval::eval_list_items']), VUnit('object_bind', 'object_bind', ['bind::bind_object', 'bind::bind_object_prop'])],
+    vunits=[V_LIST, V_NAME, V_CALL, VUnit('items', 'items', ['eval::eval_list_items']), VUnit('object_bind', 'object_bind', ['bind::bind_object', 'bind::bind_object_prop']), VUnit('bind_next', 'bind_next', ['bind::bind_next'])],
     assumptions=[
         "grammar invariant: `..` (collect) is only produced together with a pattern/parameter (ParamList, ReverseExprList in parser.lalrpop, by inspection)",
         "A-lock: list cell modelled as exclusively owned",
         "validate_args is not under contract; std BTreeMap / HashSet replaced by assumed finite-map / set contracts",
     ],
     trusted_base=VERUS_TRUST,
-    not_covered=["object spread in literals (eval_expr Object arm)", "validate_args", "that bind_next dispatches patterns to these functions (bind_next itself)"],
+    not_covered=["object spread in literals (eval_expr Object arm)", "validate_args", "patterns in for-target / parameter position reach bind_next through bind::bind (verified) from eval_stmts (verified); that the grammar builds the same AST for them is not under contract"],
 )
